@@ -216,6 +216,10 @@ func (a *AggregatePlan) prepareBatch(ctx *ExecuteCtx) error {
 		if len(kvps) == 0 {
 			break
 		}
+		// Chunk results the child cached while filtering belong to its unfiltered chunk, not to these rows
+		if ctx != nil {
+			ctx.Clear()
+		}
 		aggrKeys, err := a.batchGetAggrKeys(kvps, ctx)
 		if err != nil {
 			return err
